@@ -394,6 +394,13 @@ func (w *world) dumpParts(all bool) string {
 		}
 	}
 	sb.WriteString(" R=" + strings.Join(r, ","))
+	vt, vd := mm.GetValidatorsStake(w.ids, w.adb)
+	vs := make([]string, 0)
+	for a, v := range vd {
+		vs = append(vs, hx.Hex(a[:])+":"+strconv.FormatUint(v, 10))
+	}
+	sort.Strings(vs)
+	sb.WriteString(fmt.Sprintf(" S=%d/%s", vt, strings.Join(vs, ",")))
 	sb.WriteString(" K=" + w.pkStr())
 	x := hx.Guard(func() string { return w.readerStr() })
 	if strings.HasPrefix(x, "PANIC") {
@@ -604,6 +611,14 @@ func (ip *interp) exec(line string) string {
 		return "ok"
 	case "node":
 		return w.runTx(types.TransactionTypeOperatorNode, bs(t[1]), "")
+	case "purge":
+		ids, _ := csvBytes(t[1])
+		wl := map[string]byte{}
+		for _, id := range ids {
+			wl[common.ToHex(id)] = 0
+		}
+		service.MinerManagerImpl.RemoveUnusedValidator(w.adb, wl)
+		return "ok"
 	case "rheight":
 		// rheight <p012> <p004> <p011now> <fork> <now> <left> <type> <dismiss csv|.>
 		ds := []uint64{}
